@@ -245,9 +245,12 @@ C11_1D(tk) ==
     table_proportion_moes    |-> SqrtS1(SSE2V(tk, RE(tk)), Z975) ]
 
 \* 0-D response (a numeric summary without dimensions): the single "nub" partition
+NubCount == IF ValidCounts THEN CellNV(<< >>) ELSE CellN(CountAxes, << >>)
 NubPart ==
   [ means            |-> Num0(CellMean(<< >>)),
-    unweighted_count |-> Num0(R(IF ValidCounts THEN CellNV(<< >>) ELSE CellN(CountAxes, << >>))) ]
+    unweighted_count |-> Num0(R(NubCount)),
+    is_empty         |-> Exact(NubCount = 0),
+    table_name       |-> NoneV ]
 
 \* the cube-level arrays: the wire tensors restricted to valid elements, flattened
 \* The cube-level arrays come in the order of the reported dimensions: the numeric
